@@ -749,6 +749,12 @@ pub fn gen_base(rng: &mut Rng, p: &Profile, st: &mut GenState) -> ModuleSpec {
         v
     };
     let total_funcs = n_imp_f + n_lf as u32;
+    // a table initialiser naming a function (function-references proposal)
+    if total_funcs > 0 && rng.chance(1, 3) {
+        if let Some(t) = m.tables.first_mut() {
+            t.init = Some(ConstE::RefFunc(rng.below(total_funcs as usize) as u32));
+        }
+    }
     let mut declared: Vec<u32> = vec![];
     for _ in 0..n_g {
         let mutable = rng.chance(1, 2);
